@@ -48,7 +48,11 @@ func genSchedOps(r *RNG, g *Gen, pl *Plan, task int) []Op {
 				continue
 			}
 			s := r.Intn(nShared)
-			ops = append(ops, Op{K: "resolve", P: pl.SharedP[s], H: sharedURLBase + s, D: nextU, A: QS(g.Ref())})
+			ref := g.Ref()
+			if r.Chance(1, 5) {
+				ref = g.pick([]string{"#", "#f", "#x y", "?", "?q", ""}) // the cheapest references a crawler resolves
+			}
+			ops = append(ops, Op{K: "resolve", P: pl.SharedP[s], H: sharedURLBase + s, D: nextU, A: QS(ref)})
 			priv = append(priv, nextU)
 			nextU++
 		case 1: // parse with a shared parser / profile
@@ -99,7 +103,9 @@ func genSchedOps(r *RNG, g *Gen, pl *Plan, task int) []Op {
 				continue
 			}
 			u := priv[r.Intn(len(priv))]
-			switch r.Intn(5) {
+			switch r.Intn(6) {
+			case 5: // clearing setters: they have side effects on other components (opaque-path trimming)
+				ops = append(ops, Op{K: "set", H: u, W: []int{7, 8, 7, 8, 5, 1, 2, 6}[r.Intn(8)], A: ""})
 			case 0, 1:
 				w := r.Intn(9)
 				ops = append(ops, Op{K: "set", H: u, W: w, A: QS(g.SetterValue(w))})
@@ -198,7 +204,8 @@ func genSchedPlan(master uint64, run int) Plan {
 			in = g.pick(corpusHrefs)
 		}
 		if r.Chance(1, 3) {
-			in = g.pick([]string{"http://user:pw@example.com:8080/a/b/c?x=1&y=2#frag", "https://h/p/q/?a=b", "file:///C:/x/y", "foo://h/a/b?q", "http://1.2.3.4/x?k=v&k=w", "ws://[::1]:81/s?a+b=c%20d"})
+			in = g.pick([]string{"http://user:pw@example.com:8080/a/b/c?x=1&y=2#frag", "https://h/p/q/?a=b", "file:///C:/x/y", "foo://h/a/b?q", "http://1.2.3.4/x?k=v&k=w", "ws://[::1]:81/s?a+b=c%20d",
+				"data:text/plain,hello  #intro", "mailto:x  ?q#f", "foo:bar  ?x", "sc:/.//p?q#f", "file://h/C:/a/b"})
 		}
 		pre = append(pre, Op{K: "parse", P: p, D: 1, A: QS(in)})
 		k := r.Intn(3)
